@@ -154,6 +154,44 @@ metatype *config::global(const path *p)
 // config with item store
 config::root::root()
 { }
+// element store has a single owner: copy elements, values are shared by reference
+static bool copy_items(unique_array<config_item> &to, const span<const config_item> &from)
+{
+	for (const config_item *s = from.begin(), *e = from.end(); s != e; ++s) {
+		// slot of removed element
+		if (s->unused()) {
+			continue;
+		}
+		config_item *d;
+		if (!(d = to.insert(to.length()))) {
+			return false;
+		}
+		static_cast<identifier &>(*d) = *s;
+		metatype *m;
+		if ((m = s->instance())) {
+			d->set_instance(m->addref() ? m : m->clone());
+		}
+		if (s->length()) {
+			static_cast<unique_array<config_item> &>(*d) = unique_array<config_item>(0L);
+			if (!copy_items(*d, s->elements())) {
+				return false;
+			}
+		}
+	}
+	return true;
+}
+config::root::root(const root &from) : config(from)
+{
+	copy_items(_sub, from.items());
+}
+config::root &config::root::operator=(const root &from)
+{
+	if (this != &from) {
+		_sub = unique_array<config_item>(0L);
+		copy_items(_sub, from.items());
+	}
+	return *this;
+}
 config::root::~root()
 { }
 // config interface
